@@ -1,1 +1,3 @@
 import Properties.C14
+import Properties.C01
+import Properties.C16
